@@ -28,7 +28,7 @@ ASSUMPTIONS = ["bands are 2-D, equal shape, same container type (validate_arrays
                "soil_factor in [-1,1]; c1, c2, gain >= 0 (documented ranges; outside them the functions raise)",
                "true_color inputs carry coords y, x; nodata is exactly representable in float32 (a float32 red band is compared after NumPy casts the scalar)",
                "EBBI with swir+tir < 0 (square root of a negative number) is read as 'undefined => NaN'"]
-BUDGET_S = {"quick": 150, "thorough": 1000}
+BUDGET_S = {"quick": 150, "thorough": 1500}
 
 EPS = 2.0 ** -23
 TINY = 1e-30
